@@ -45,26 +45,14 @@ TRUSTED_EXTRA = ["translator harness/translate/fs_effects.py: the tables of FS-c
 
 
 # ---- known findings -----------------------------------------------------------------------------
-def _prefix(case):
-    return (case.get("opts") or {}).get("prefix") or ""
-
-
 def m_xlsx_tempfiles(f):
     ev = f["case"].get("event") or {}
     return f["kind"] == "temp-file-outside-named-locations" and (ev.get("site") or [""])[0].endswith("export/xlsx_export.py")
 
 
-def m_prefix_escape(f):
-    return f["kind"] in ("write-outside-named-locations", "sandbox-changed-outside-output", "unplanned-file") and \
-        "/" in _prefix(f["case"])
-
-
-def m_table_name_escape(f):
-    return f["kind"] in ("write-outside-named-locations", "sandbox-changed-outside-output", "unplanned-file") and \
-        f["case"].get("ev", "").startswith("odd_")
-
-
-MATCHERS = {"xlsx_tempfiles": m_xlsx_tempfiles, "prefix_escape": m_prefix_escape, "table_name_escape": m_table_name_escape}
+# C04-F2 (--file-prefix escaping the output directory) and C04-F3 (a table name steering the CSV file out of it)
+# are fixed in /repo (430cb54, ccb6063); their inputs stay in corpus/C04, so a regression is a VIOLATION.
+MATCHERS = {"xlsx_tempfiles": m_xlsx_tempfiles}
 
 
 # ---- library scenarios (executed inside a pool worker, in-process under the hook) -------------------
